@@ -55,15 +55,15 @@ func newUDFNode(et *ExecutingTask, n *pipeline.UDFNode, d NodeDiagnostic) (*UDFN
 
 var errNodeAborted = errors.New("node aborted")
 
+// stopUDF is called when the task is being stopped, before the node has necessarily consumed its input.
+// A task is stopped by closing its source edge: the node finishes on its own once its input edge is
+// drained and runUDF then closes the UDF, which processes everything that was sent to it.
+// Aborting the UDF here would drop the data in flight (and an unresponsive UDF is already aborted by
+// its keepalive timeout), so only remember that the node was stopped externally.
 func (n *UDFNode) stopUDF() {
 	n.mu.Lock()
 	defer n.mu.Unlock()
-	if !n.stopped {
-		n.stopped = true
-		if n.udf != nil {
-			n.udf.Abort(errNodeAborted)
-		}
-	}
+	n.stopped = true
 }
 
 func (n *UDFNode) runUDF(snapshot []byte) (err error) {
@@ -91,14 +91,17 @@ func (n *UDFNode) runUDF(snapshot []byte) (err error) {
 
 	forwardErr := make(chan error, 1)
 	go func() {
+		var err error
 		out := n.udf.Out()
 		for m := range out {
-			if err := edge.Forward(n.outs, m); err != nil {
-				forwardErr <- err
-				return
+			if err != nil {
+				// A child is gone. Keep consuming the output of the UDF (dropping it),
+				// otherwise closing the UDF waits for ever for its output to be read.
+				continue
 			}
+			err = edge.Forward(n.outs, m)
 		}
-		forwardErr <- nil
+		forwardErr <- err
 	}()
 
 	// The abort callback needs to know when we are done writing
@@ -122,12 +125,15 @@ func (n *UDFNode) runUDF(snapshot []byte) (err error) {
 	n.wg.Wait()
 
 	// Close the udf
-	if err := n.udf.Close(); err != nil {
-		return err
-	}
+	closeErr := n.udf.Close()
 
-	// Wait/Return any error from the forwarding goroutine
-	return <-forwardErr
+	// Always wait for the forwarding goroutine, the children edges are closed once this function returns.
+	forwardingErr := <-forwardErr
+	if closeErr != nil {
+		return closeErr
+	}
+	// Return any error from the forwarding goroutine
+	return forwardingErr
 }
 
 func (n *UDFNode) abortedCallback() {
